@@ -15,7 +15,10 @@ Control-flow exceptions of the engine derive from BaseException so that the
 from __future__ import annotations
 
 import builtins
+import fcntl
+import json as _json
 import math as _math
+import os
 import re
 import time
 from fractions import Fraction
@@ -59,6 +62,11 @@ class Stop(EngineSignal):
 
 
 CUR = None  # the engine executing right now
+
+# Set by the runner for the job being run (vf/runner.py):
+SHARD_KEY = None    # identifies the job up to its shard index: all shards of one job share ONE prefix list (see Engine.shared_prefixes)
+SHARD_SEQ = 0       # n-th sharded exploration inside the job
+FEAS_SCALE = 1      # a job that ended inconclusive is re-run with longer feasibility budgets (prunes more infeasible paths)
 
 
 def cur():
@@ -929,7 +937,7 @@ class PathResult:
 class Engine:
     def __init__(self, feas_timeout_ms=300, algebraic=False, table=True, max_paths=200000, deadline=None,
                  margin_round=None):
-        self.feas_timeout_ms = feas_timeout_ms
+        self.feas_timeout_ms = _int(feas_timeout_ms * FEAS_SCALE)
         self.algebraic = algebraic          # add y**q == x**p constraints for roots (nonlinear)
         self.table = table                  # add enclosure tables for 1-variable transcendental args
         self.max_paths = max_paths
@@ -1131,7 +1139,7 @@ class Engine:
         if pos < len(self.prefix):
             r = self.prefix[pos]
             self.decisions.append(r)
-            self.pc.append(z3.BoolVal(True))
+            self._implied_lemma(c, r)
             return r
         if self._shard_depth is not None and pos >= self._shard_depth:
             self._shard_prefixes.append(tuple(self.decisions))
@@ -1142,8 +1150,19 @@ class Engine:
         else:
             r = not self._check(z3.Not(c))[0]
         self.decisions.append(r)
-        self.pc.append(z3.BoolVal(True))
+        self._implied_lemma(c, r)
         return r
+
+    def _implied_lemma(self, c, r):
+        """r is True only when z3 answered unsat for (path so far) & not c: c is then a consequence of constraints that
+        stay on the path, and is kept as a redundant lemma (it cannot change the path's models).  Without it an obligation
+        about a term whose clamp was collapsed on the strength of this very answer has to re-derive the fact from the whole,
+        longer, constraint set -- which a non-linear solver sometimes fails to do (probe run: C10 'valid 8-bit colour')."""
+        if r:
+            self.pc.append(c)
+            self.solver.add(c)
+        else:
+            self.pc.append(z3.BoolVal(True))
 
     # -- arithmetic helpers ----------------------------------------------------
     def divide(self, a, b):
@@ -1518,6 +1537,31 @@ class Engine:
             self._shard_depth = None
         return sorted(set(self._shard_prefixes))
 
+    def shared_prefixes(self, fn, depth):
+        """The prefix list that the shards of one job slice.  Feasibility answers under a wall-clock budget can differ between
+        processes (an `unknown` keeps both branches), so every shard computing its own list would not give a partition: a prefix
+        could fall between two differing lists and its paths be explored by nobody.  The first shard to get here computes
+        the list and stores it in the run's scratch directory; the others (and re-runs of a shard) read that same list."""
+        global SHARD_SEQ
+        d = os.environ.get("VERIF_SHARD_DIR")
+        if not d or not SHARD_KEY or not os.path.isdir(d):
+            return self.shard_prefixes(fn, depth)
+        SHARD_SEQ += 1
+        path = os.path.join(d, "%s_%d_%d.json" % (SHARD_KEY, SHARD_SEQ, depth))
+        with open(path + ".lock", "w") as lk:
+            fcntl.flock(lk, fcntl.LOCK_EX)
+            try:
+                if os.path.exists(path):
+                    with open(path) as f:
+                        return [tuple(bool(x) for x in p) for p in _json.load(f)]
+                allp = self.shard_prefixes(fn, depth)
+                with open(path + ".tmp", "w") as f:
+                    _json.dump([list(p) for p in allp], f)
+                os.replace(path + ".tmp", path)
+                return allp
+            finally:
+                fcntl.flock(lk, fcntl.LOCK_UN)
+
     def explore(self, fn, on_path=None, shard=None):
         """Run fn() on every feasible path.  shard=(i, n, depth) explores only the i-th of n slices of the
         decision-prefix set at the given depth (the slices partition the path set)."""
@@ -1525,7 +1569,7 @@ class Engine:
         work = [()]
         if shard is not None:
             i, n, depth = shard
-            allp = self.shard_prefixes(fn, depth)
+            allp = self.shared_prefixes(fn, depth)
             work = list(allp[i::n])
             self.stats["shard"] = "%d/%d of %d prefixes at depth %d" % (i, n, len(allp), depth)
         results = []
